@@ -534,12 +534,15 @@ class MQTTProtocol(MQTTBaseProtocol):
         '''
         Refills the Publisher transmission window from the queue 
         '''
-        cnx = self.addr
-        N = min(self._window - len(self.factory.windowPublish[cnx]), len(self.factory.queuePublishTx[cnx]))
-        for i in range(0,N):
-            request = self.factory.queuePublishTx[cnx].popleft()
-            if request.msgId:   # only form QoS 1 & 2
-                self.factory.windowPublish[cnx][request.msgId] = request
+        queue  = self.factory.queuePublishTx[self.addr]
+        window = self.factory.windowPublish[self.addr]
+        while queue:
+            request = queue[0]
+            if request.msgId:   # only QoS 1 & 2 occupy the window
+                if len(window) >= self._window:
+                    break
+                window[request.msgId] = request
+            queue.popleft()
             self._retryPublish(request, dup)
 
 
